@@ -417,4 +417,43 @@ VARIANTS = [
                     if wanted:
                         module.send_message(header, data)
                         module.drops = 0"""),
+
+    # ---------------- wave 6 ----------------
+    dict(name="c01-recipient-union-written-into-the-table", property="C01", rule="C01-R10", file=M,
+         old="""        subscribers = list(
+            chain(
+                self.subscriptions[header.msg_type],
+                self.subscriptions[ALL_MESSAGE_TYPES],
+            )
+        )
+""",
+         new="""        subscribers = self.subscriptions[header.msg_type]
+        subscribers |= self.subscriptions[ALL_MESSAGE_TYPES]
+        subscribers = list(subscribers)
+"""),
+    dict(name="c01-timeout-on-accepted-connections", property="C01", rule="C01-R11", file=M,
+         old="                            (conn, address) = self.listen_socket.accept()\n", new="                            (conn, address) = self.listen_socket.accept()\n                            conn.settimeout(5.0)\n"),
+    dict(name="c03-log-text-in-percent-arguments", property="C03", rule="C03-R", file=M,
+         old="""                self.logger.error(
+                    f"SET_NAME - {module.ipaddr} - Module name is not valid ascii. Closing connection."
+                )""",
+         new="""                self.logger.error(
+                    "SET_NAME - %s - Module name is not valid ascii. Closing connection.", module.ipaddr
+                )"""),
+    dict(name="c03-shutdown-before-close", property="C03", rule="C03-X", file=M,
+         old='        """Close connection"""\n        self.conn.close()\n',
+         new='        """Close connection"""\n        try:\n            self.conn.shutdown(socket.SHUT_RDWR)\n        except ConnectionError:\n            pass\n        self.conn.close()\n'),
+    dict(name="c07-shutdown-before-close", property="C07", rule="C07-X", file=M,
+         old='        """Close connection"""\n        self.conn.close()\n',
+         new='        """Close connection"""\n        try:\n            self.conn.shutdown(socket.SHUT_RDWR)\n        except ConnectionError:\n            pass\n        self.conn.close()\n'),
+    dict(name="c07-silent-shutdown-guarded-by-oserror", property="C07", expect="silent", file=M,
+         old='        """Close connection"""\n        self.conn.close()\n',
+         new='        """Close connection"""\n        try:\n            self.conn.shutdown(socket.SHUT_RDWR)\n        except OSError:\n            pass\n        self.conn.close()\n'),
+    dict(name="c05-log-record-on-the-success-path-of-the-fan-out", property="C05", rule="C05-Q", file=M,
+         old="                        module.send_message(header, data)\n                        module.drops = 0\n",
+         new="                        module.send_message(header, data)\n                        if module.drops:\n                            self.logger.info(f\"RESUMED - {module!s}\")\n                        module.drops = 0\n"),
+    dict(name="c14-notice-header-copied-from-the-failed-header", property="C14", rule="C14-N", file=M,
+         old="        out_header = self.header_cls()\n        data = cd.MDF_FAILED_MESSAGE()", new="        out_header = self.header_cls.from_buffer_copy(header)\n        data = cd.MDF_FAILED_MESSAGE()"),
+    dict(name="c19-payload-read-without-waitall", property="C19", rule="C19-R", file=M,
+         old="            nbytes = sock.recv_into(self.data_buffer, data_size, socket.MSG_WAITALL)", new="            nbytes = sock.recv_into(self.data_buffer, data_size)"),
 ]
